@@ -38,7 +38,8 @@ struct Gen {
 	int kind(bool allowSchedule) {
 		std::vector<int> w = {30, 12, 14, 8, has(CAP_UTILITY) ? 8 : 0, has(CAP_UTILITY) ? 8 : 0, allowSchedule ? 8 : 0};
 		if (is("C12")) { w[4] = has(CAP_UTILITY) ? 30 : 0; w[5] = has(CAP_UTILITY) ? 40 : 0; }
-		if (avoid.count("select_into_headless_region")) { for (int r : regions) if (sh.st[size_t(r)].headless) w[3] = 0; }
+		// an anonymous head has no select()/rank()/utility() to consult: resolver-driven kinds are undefined for shapes with headless regions
+		for (int r : regions) if (sh.st[size_t(r)].headless) { w[3] = 0; w[4] = 0; w[5] = 0; }
 		return rng.weighted(w);
 	}
 	int64_t payload() { return nextPayload++; }
